@@ -1193,6 +1193,12 @@ def _k4_cases(tier: str) -> List[K3Case]:
     cs.append(K3Case('outcome/command', act=sys_(['sym']), outcome=True))
     cs.append(K3Case('outcome/command-transformed', act=Pgm('ref', 'P1', [], trans='replace'),
                      defs=[('P1', sys_(['sym'], trans='upper'))], outcome=True))
+    # accumulated transformations of which one is `identity` (round 7: the any / all slip in the is-identity attribute of a
+    # sequence made the actors skip ALL transformations - C10-r7m1 = C05-r4m1)
+    cs.append(K3Case('outcome/command-transformed-identity-first', act=Pgm('ref', 'P1', [], trans='upper'),
+                     defs=[('P1', sys_(['sym'], trans='identity'))], outcome=True))
+    cs.append(K3Case('outcome/command-transformed-identity-last', act=Pgm('ref', 'P1', [], trans='identity'),
+                     defs=[('P1', sys_(['sym'], trans='replace'))], outcome=True))
     cs.append(K3Case('outcome/file', actor='file', act=['sym'], outcome=True))
     cs.append(K3Case('outcome/source', actor='source', outcome=True))
     cs.append(K3Case('outcome/null', actor='null', outcome=True))
